@@ -768,6 +768,10 @@ func mutatesArg(cc *ssa.CallCommon, k int, depth int) bool {
 				if x.X == ssa.Value(prm) {
 					return true
 				}
+				// the parameter is a pointer to a struct that holds the slice/map: p.f
+				if fa, ok := x.X.(*ssa.FieldAddr); ok && stripConv(fa.X) == ssa.Value(prm) {
+					return true
+				}
 				// value receivers and captured parameters are spilled to a cell
 				if al, ok := x.X.(*ssa.Alloc); ok {
 					if sv := uniqueStore(al); sv != nil {
@@ -791,6 +795,9 @@ func mutatesArg(cc *ssa.CallCommon, k int, depth int) bool {
 				}
 				if x.Addr == ssa.Value(prm) {
 					return true // *p = …
+				}
+				if fa, ok := x.Addr.(*ssa.FieldAddr); ok && stripConv(fa.X) == ssa.Value(prm) {
+					return true // p.f = …
 				}
 			case *ssa.MapUpdate:
 				if fromParam(x.Map) {
